@@ -162,9 +162,12 @@ static int encode_special_opd(struct instr *instrc, int m, int i) {
         instrc->hex.rex |= rex_w;
       reg_r++;
     }
-    if ((MODE_MASK & instrc->opd[m].reg) == ext64)
-      instrc->hex.rex |= rex_ + rex_b;
     FAIL_IF(get_reg(instrc, &instrc->opd[m], reg_r));
+    // register, base or index is part of the x64 extended set
+    if (instrc->opd[m].reg & REG_RB)
+      instrc->hex.rex |= rex_ + rex_b;
+    if (instrc->opd[m].index & REG_RB)
+      instrc->hex.rex |= rex_ + rex_x;
     instrc->rd_offset = (instrc->opd[m].reg & VALUE_MASK);
     if (instrc->mem_disp)
       instrc->rd_offset |= instrc->mod_disp;
